@@ -205,6 +205,9 @@ theorem stream_step (s : St) (o : Op) (h : calmStep s o = true) :
   | inval =>
     simp only [step, opText, List.append_nil]
     split <;> simp [stream, outText_append, outText]
+  | exit =>
+    simp only [step, opText, List.append_nil]
+    split <;> simp [stream]
 
 /-! ### positions of the write calls in the output -/
 
@@ -482,6 +485,9 @@ theorem binv_step (s : St) (o : Op) (hs : startSafe s o = true) (h : BInv s) : B
       refine ⟨?_, hal, hdir, hrl, hrd⟩
       simp only [phRun_append, hph, hc, phaseOf]; rfl
     · exact ⟨hph, hal, hdir, hrl, hrd⟩
+  | exit =>
+    simp only [step]
+    split <;> exact ⟨hph, hal, hdir, hrl, hrd⟩
 
 /-! ### main theorems: exactly once, order, contiguity -/
 
@@ -745,6 +751,7 @@ theorem alive_step (s : St) (o : Op) (ho : o ≠ .close)
   | newLoop => simp only [step]; split <;> exact ⟨hq, hf⟩
   | closeLoop => simp only [step]; split <;> exact ⟨hq, hf⟩
   | inval => simp only [step]; split <;> exact ⟨hq, hf⟩
+  | exit => simp only [step]; split <;> exact ⟨hq, hf⟩
 
 /-- **flusher_alive.**  Unless `close()` is called, the flush thread never terminates — whatever the
     application and its event loop do (stop, loop closed between look-up and hand-off, new loop).
@@ -876,6 +883,9 @@ theorem count_step (s : St) (o : Op) (c : Char) :
   | inval =>
     simp only [step, opText, List.count_nil, Nat.add_zero]
     split <;> simp [everywhere, outText_append, outText]
+  | exit =>
+    simp only [step, opText, List.count_nil, Nat.add_zero]
+    split <;> simp [everywhere]
 
 /-- **conservation.**  For *every* schedule — including the ones in which a loop is closed with callbacks
     still waiting, or the flush thread overtakes the loop — no character is invented or duplicated: the
@@ -1235,6 +1245,7 @@ theorem no_nl_step (s : St) (o : Op) (h : '\n' ∉ cat s.buffer) : '\n' ∉ cat 
   | newLoop => simp only [step]; split <;> exact h
   | closeLoop => simp only [step]; split <;> exact h
   | inval => simp only [step]; split <;> exact h
+  | exit => simp only [step]; split <;> exact h
 
 /-- **no_newline_in_buffer.**  The line buffer never contains a newline: everything up to the last
     newline of a write is queued by that very write call; only an unfinished line waits for `flush()`. -/
@@ -1448,6 +1459,75 @@ example :
     (settle 60 (runOps (init false) (ops ++ [.flush 0, .close]))).fl = .exited ∧
     outText (settle 60 (runOps (init false) (ops ++ [.flush 0, .close]))).log = ['a', '\n', 'b', 'c', '\n', 'd'] := by
   decide
+
+
+/-! ### the exit-requested phase (`Application.exit()` called, `run_async` not yet resumed) -/
+
+/-- `exiting` is a sub-phase of a running application -/
+theorem exiting_implies_running (raw : Bool) (ops : List Op) :
+    (runOps (init raw) ops).exiting = true → (runOps (init raw) ops).appOn = true := by
+  suffices h : ∀ s : St, (s.exiting = true → s.appOn = true) →
+      ((runOps s ops).exiting = true → (runOps s ops).appOn = true) from h _ (by simp [init])
+  intro s hs
+  induction ops generalizing s with
+  | nil => exact hs
+  | cons o os ih =>
+    apply ih
+    cases o with
+    | write t d => simp only [step, doWrite]; split <;> exact hs
+    | flush t => exact hs
+    | close => exact hs
+    | fl =>
+      simp only [step, flStep]
+      split
+      · split <;> exact hs
+      · exact hs
+      · exact hs
+      · split <;> exact hs
+      · exact hs
+      · exact hs
+    | run => simp only [step, runStep]; split; exact hs; split <;> exact hs
+    | start => simp only [step]; split; simp; exact hs
+    | stop => simp only [step]; split; simp; exact hs
+    | newLoop => simp only [step]; split <;> exact hs
+    | closeLoop => simp only [step]; split <;> exact hs
+    | inval => simp only [step]; split <;> exact hs
+    | exit => simp only [step]; split; (rename_i hc; intro _; exact hc); exact hs
+
+/-- **exit_phase_section.**  A batch that the loop runs while the application is in the exit-requested
+    phase (`is_done` already true, prompt still drawn, final rendering pending) is still emitted as
+    `erase; text; redraw`; the application stays in that phase, and the final rendering follows the
+    redraw when `run_async` resumes.  (`in_terminal` tests `_is_running`, not `is_done`.) -/
+theorem exit_phase_section (s : St) (t : Text) (ps : List Text)
+    (hon : s.appOn = true) (_hex : s.exiting = true) (hp : s.pending = t :: ps) :
+    (step s .run).log = s.log ++ [.erase, .out s.raw t, .draw] ∧
+    (step s .run).appOn = true ∧ (step s .run).exiting = s.exiting ∧
+    (step (step s .run) .stop).log = s.log ++ [.erase, .out s.raw t, .draw, .doneDraw] := by
+  simp [step, runStep, hp, hon]
+
+/-- what `in_terminal` would do if its early-out tested `app.is_done` instead of `not app._is_running`
+    (the seeded regression C20-b): in the exit-requested phase it takes the "no application" shortcut -/
+def runStepIsDone (s : St) : St :=
+  match s.pending with
+  | [] => s
+  | t :: ps =>
+    if s.appOn ∧ ¬ s.exiting then
+      { s with pending := ps, log := s.log ++ [.erase, .out s.raw t, .draw] }
+    else { s with pending := ps, log := s.log ++ [.out s.raw t] }
+
+/-- the schedule of the exit window: the callback is accepted, `exit()` is called, the section runs, then
+    `run_async` resumes -/
+def exitWindow : List Op := [.newLoop, .start, .write 0 ['a', '\n'], .fl, .fl, .fl, .exit, .run, .stop]
+
+/-- **is_done_shortcut_witness.**  On the schedule `exitWindow` (start-calm and calm) the model of the
+    current code keeps the bracket; with the `is_done` early-out the text is written onto the drawn prompt. -/
+theorem is_done_shortcut_witness :
+    startCalm (init false) exitWindow = true ∧ calm (init false) exitWindow = true ∧
+    (runOps (init false) exitWindow).log = [.draw, .erase, .out false ['a', '\n'], .draw, .doneDraw] ∧
+    phRun .off (runOps (init false) exitWindow).log = some .off ∧
+    (let s := runOps (init false) [.newLoop, .start, .write 0 ['a', '\n'], .fl, .fl, .fl, .exit]
+     (step (runStepIsDone s) .stop).log = [.draw, .out false ['a', '\n'], .doneDraw] ∧
+     phRun .off (step (runStepIsDone s) .stop).log = none) := by decide
 
 
 end Ptk.C20
